@@ -153,10 +153,13 @@ def check(run, vec_paths=None):
     # replay + V
     out = replay_and_validate(run, "c04", "trace/Trace_CPR04", vec_paths, "c04")
     n_events, outcomes, samples = 0, Counter(), []
+    tcs = {}
     for events, why, r in out:
         run.add_tlc(r)
         n_events += len(events)
         for ev in events:
+            if "tc0" in ev:
+                tcs.setdefault(ev["fam"], set()).update((ev["tc0"], ev["tc1"]))
             for k in ("eo", "oe", "ee", "oo"):
                 if k in ev:
                     outcomes[("pair_" if k in ("eo", "oe") else "same_parity_") + ev[k]["o"]] += 1
@@ -181,6 +184,7 @@ def check(run, vec_paths=None):
         "nl_bands_with_same_band_points": vec_cov.get("bands_with_same_band_points", 0),
         "vectors_near_threshold": vec_cov.get("near_threshold", 0),
         "outcomes": dict(outcomes),
+        "type_codes_per_family": {k: sorted(v) for k, v in sorted(tcs.items())},
         "mc_states": m.distinct,
         "nltable_selfcheck": note,
         "samples": samples,
